@@ -61,7 +61,9 @@ def pre_cases(draw):
     for _ in range(draw(st.integers(1, 4))):
         lists.append(draw(mutate_list(l, lists[-1])) if draw(st.booleans()) else draw(free_list(l)))
     return {"l": l, "lists": lists, "stream": draw(st.binary(min_size=0, max_size=32)), "seed": draw(st.integers(0, 2**32)),
-            "use": draw(st.sampled_from(("none", "encrypt", "sign"))), "msg": draw(gens.scalars(256))[1]}
+            "use": draw(st.sampled_from(("none", "encrypt", "sign"))), "msg": draw(gens.scalars(256))[1],
+            # sign: which valued entries of the final list carry the omit-from-keys flag / are left free in the signing key
+            "flag": draw(st.integers(0, 255)) if draw(st.booleans()) else 0, "keep": draw(st.integers(0, 255)) if draw(st.booleans()) else 255}
 
 
 def check_pre(ctx, lib, c):
@@ -91,7 +93,16 @@ def check_pre(ctx, lib, c):
             expect(W.decrypt(ct, sk=sk) == msg, "encrypt_precomputed/decrypt", lambda: "list=%s" % final.describe())
             expect(W.decrypt(ct, msk=msk) == msg, "encrypt_precomputed/decrypt_master", lambda: "list=%s" % final.describe())
         elif c["use"] == "sign":
-            sk = W.keygen(params, msk, final, l - len(final))
+            # the signing key fixes a subset of the list's valued entries; the others are free in the key and are filled by sign from
+            # the key's delegation components. Entries may carry the omit-from-keys flag with a value: the flag concerns key derivation
+            # only, signing and verification use every listed value (flagged entries are never handed to keygen with a value).
+            fl, keep = c.get("flag", 0), c.get("keep", 255)
+            ent = c["lists"][-1]
+            keylist = Attrs([(i, v) for i, v in ent if v is None or ((keep >> i & 1) and not (fl >> i & 1))])
+            final = Attrs([(i, v, (v is None) or bool(fl >> i & 1)) for i, v in ent])
+            if any(v is not None and not (keep >> i & 1 and not fl >> i & 1) for i, v in ent):
+                ctx.event("sign-fills-free-slot" + ("-flagged" if any(v is not None and (fl >> i & 1) for i, v in ent) else ""))
+            sk = W.keygen(params, msk, keylist, l - len(keylist))
             m = c["msg"]
             s1 = W.sign(params, sk, final, m)
             s2 = W.sign(params, sk, final, m, pre=pre)
